@@ -42,6 +42,7 @@ pub fn menu_paths() -> Vec<JPath> {
         // repeated and overlapping subscripts select an element once per mention
         JPath(vec![Step::Root, Step::Indices(vec![AIdx::One(Idx::N(0)), AIdx::One(Idx::N(0))])]),
         JPath(vec![Step::Root, Step::Indices(vec![AIdx::Slice(Idx::N(0), Idx::N(1)), AIdx::Slice(Idx::N(1), Idx::Last(0))])]),
+        JPath(vec![Step::Root, Step::Indices(vec![AIdx::Slice(Idx::N(0), Idx::Last(-1))])]),
         JPath(vec![Step::Predicate(Box::new(Expr::Cmp(Cmp::Gt, Box::new(Expr::Paths(vec![Step::Root, Step::Dot("a".into())])), Box::new(Expr::Lit(Lit::Num(RNum::U(0)))))))]),
     ]
 }
